@@ -300,7 +300,38 @@ mod vk_iter {
         }
     }
 
-    // @harness name=iter_skip props=C06,C11,C07 kind=bounded bound="one skip_to_end; all values read symbolic"
+    // a buffered iterator is polled again after an earlier pull (whatever that pull saw -- a chunk, a short chunk, the end, or a
+    // lost turn): the second pull follows the protocol like the first -- state kept in the buffer between calls must not make it
+    // skip its reservation or the publication of its ticket (later tickets would wait forever)
+    // @harness name=iter_buffered_again props=C09,C01,C05,C07 kind=bounded bound="chunk size == 2; two consecutive pulls on one buffered iterator; fruitless polls <= 2 per pull"
+    #[kani::proof]
+    #[kani::unwind(18)]
+    #[kani::stub(std::sync::atomic::Atomic::<usize>::fetch_add, a_faa)]
+    #[kani::stub(std::sync::atomic::Atomic::<usize>::load, a_load)]
+    #[kani::stub(std::sync::atomic::Atomic::<usize>::store, a_store)]
+    #[kani::stub(std::sync::atomic::Atomic::<bool>::load, b_load)]
+    #[kani::stub(std::sync::atomic::Atomic::<bool>::store, b_store)]
+    #[kani::stub(std::sync::atomic::Atomic::<bool>::swap, b_swap)]
+    #[kani::stub(std::sync::atomic::Atomic::<bool>::fetch_or, b_for)]
+    #[kani::stub(std::sync::atomic::Atomic::<bool>::fetch_and, b_fand)]
+    fn iter_buffered_again() {
+        let (it, _k, _len) = mk();
+        locs(&it);
+        let n: usize = 2;
+        let mut buf = it.buffered_iter(n);
+        let first_none = buf.next().is_none();
+        // a new call: fresh log, fresh environment
+        { let s = st(); s.n = 0; s.nw = 0; s.nl = 0; s.polls = 0; s.have_ticket = false; s.have_y = false; }
+        let r = buf.next();
+        let (_b, admitted, items, ended) = chk_protocol(n, true, false);
+        kani::cover!(first_none && admitted, "polled again after it reported the end, and admitted");
+        match r {
+            Some(c) => { assert!(admitted && c.values.len() == items && items >= 1, "[C01 C07 iter-again-some] a chunk is returned only by the admitted holder and holds what it took"); }
+            None => { assert!(items == 0, "[C01 iter-none-lost] no item is taken from the wrapped iterator and then dropped"); if admitted { assert!(ended, "[C01 C05 iter-none-only-at-end] an admitted holder reports the end only after the wrapped iterator did"); } }
+        }
+    }
+
+    // @harness name=iter_skip props=C06,C11,C07,C04,C02,C01 kind=bounded bound="one skip_to_end; all values read symbolic"
     #[kani::proof]
     #[kani::unwind(18)]
     #[kani::stub(std::sync::atomic::Atomic::<usize>::fetch_add, a_faa)]
@@ -323,7 +354,7 @@ mod vk_iter {
             if i < s.n {
                 let e = s.log[i];
                 if e.loc == 3 && e.kind == 6 { assert!(e.arg == 1, "[C06 iter-skip-flag] skip_to_end sets `completed`"); set = true; }
-                assert!(e.loc != 9, "[C06 C07 iter-skip-untouched] skip_to_end does not use the wrapped iterator");
+                assert!(e.loc != 9, "[C06 C07 C04 C02 C01 iter-skip-untouched] skip_to_end does not use the wrapped iterator (it does not own the turn: elements taken here are lost or reordered for the pulls in flight)");
                 assert!(e.loc != 2 || e.kind == 2, "[C06 C09 iter-skip-y] skip_to_end does not move `yielded` (in-flight holders keep their turn)");
                 assert!(!(e.loc == 1 && e.kind == 3 && e.arg > usize::MAX / 2), "[C06 iter-skip-headroom] skip_to_end does not park the ticket counter next to usize::MAX, where the next reservation wraps it");
             }
@@ -399,14 +430,19 @@ mod vk_iter {
         else { assert!(have_c && r == Some(remaining(c, len - k)), "[C11 iter-len] for an exact size hint try_get_len is max(initial_len - reserved, 0)"); }
     }
 
-    // @harness name=iter_len_hint props=C11 kind=complete
+    // @harness name=iter_len_hint props=C11,C01,C04 kind=complete
     #[kani::proof]
     fn iter_len_hint() {
         struct H(usize, Option<usize>);
         impl Iterator for H { type Item = u8; fn next(&mut self) -> Option<u8> { None } fn size_hint(&self) -> (usize, Option<usize>) { (self.0, self.1) } }
         let lo: usize = kani::any();
         let hi: Option<usize> = kani::any();
-        let it = ConIterOfIter::new(H(lo, hi));
+        // every way of building the iterator records the same facts about the source
+        let route: u8 = kani::any();
+        kani::assume(route < 3);
+        let it: ConIterOfIter<u8, H> = if route == 0 { ConIterOfIter::new(H(lo, hi)) } else if route == 1 { ConIterOfIter::from(H(lo, hi)) } else { crate::IterIntoConcurrentIter::into_con_iter(H(lo, hi)) };
+        kani::cover!(route == 1, "From impl");
+        assert!(it.reserved_counter.current() == 0 && it.yielded_counter.current() == 0 && !it.completed.load(atomic::Ordering::SeqCst), "[C11 C01 C04 iter-ctor-fresh] a new iterator has handed out no ticket, published none, and has not ended");
         kani::cover!(hi == Some(lo), "exact hint");
         kani::cover!(hi.is_none(), "unbounded hint");
         let exact = hi == Some(lo);
